@@ -235,7 +235,7 @@ def replay_open(f):
 
 def run(ctx, args):
     ctx.branches, ctx.skipped = {}, {}
-    ctx.regen(["GenValidators.v"])
+    ctx.regen(["GenWs.v", "GenValidators.v"])
     ctx.build("Props/C09.vo")
     quick = ctx.tier == "quick"
     recs = []
